@@ -167,3 +167,17 @@ Theorem C02_source_const_transmute : forall a b,
   rejects const_transmute_guard (env2 "size_of_A" a "size_of_B" b) 0 = negb (a =? b) /\
   fails_by_panic const_transmute_guard = true.
 Proof. exact tie_const_transmute. Qed.
+
+From GA Require Import Deleg DelegTie.
+From GAGen Require Import GenDeleg.
+Local Open Scope string_scope.
+(* Deref / DerefMut / Borrow / AsRef to [T], as they stand in the source now, are exactly
+   as_slice / as_mut_slice *)
+Theorem C02_source_view_delegations :
+  lookup "Deref::deref" gen_delegations = Some (DView (VAsSlice "self")) /\
+  lookup "DerefMut::deref_mut" gen_delegations = Some (DView (VAsMutSlice "self")) /\
+  lookup "Borrow<[T]>::borrow" gen_delegations = Some (DView (VAsSlice "self")) /\
+  lookup "BorrowMut<[T]>::borrow_mut" gen_delegations = Some (DView (VAsMutSlice "self")) /\
+  lookup "AsRef<[T]>::as_ref" gen_delegations = Some (DView (VAsSlice "self")) /\
+  lookup "AsMut<[T]>::as_mut" gen_delegations = Some (DView (VAsMutSlice "self")).
+Proof. rewrite !tie_deleg_of. repeat split. Qed.
